@@ -123,7 +123,10 @@ def judge(case, steps):
             unnoticed_reset = False       # the decorator knows about the outage: it rewrites everything
         if failed and st_.post == "OK" and st_.pre == "OK":
             labels.add("swallowed-flush-failure")
-            unnoticed_reset = unnoticed_reset or volatile
+            if volatile and not unnoticed_reset:
+                # which entry was being flushed is not visible in the failure event: when no buffered entry is obsolete
+                # (no newer value of its register has reached the hardware since it was buffered) the entry was a valid one
+                unnoticed_reset = True if any(obsolete_buffer.values()) else "valid-entry"
         elif failed and st_.post == "OK" and st_.pre == "Issue" and any(e[0] == "w" for e in st_.ev):
             # the call's own write succeeded (Issue -> OK) and a physical write of the buffer flush behind it failed: the
             # decorator swallows that failure and stays OK although the flushed entry was a valid one ("better luck next time")
